@@ -173,22 +173,28 @@ def ob_apply(cx):
     if raised is not None and inj != "delete" and not any(e["kind"] in ("delete", "replace", "rename+replace") and not e["on_disk"]
                                                           for e in entries) and inj is None:
         cx.require(False, "apply failed without any failing file-system operation: %r" % (raised,))
+    want = {}
+    for e in entries:
+        if e["new"] is None:
+            continue
+        if e["kind"] == "rename":
+            if e["on_disk"]:
+                want["/t/" + e["new"]] = ("old", e["i"])
+        else:
+            want["/t/" + e["new"]] = ("new", e["i"])
     if raised is None:
         cx.require(inj is None, "an injected failure was swallowed (%s)" % inj)
-        want = {}
-        for e in entries:
-            if e["new"] is None:
-                continue
-            if e["kind"] == "rename":
-                if e["on_disk"]:
-                    want["/t/" + e["new"]] = ("old", e["i"])
-            else:
-                want["/t/" + e["new"]] = ("new", e["i"])
         cx.require(fs == want, "after a successful apply the file system is %r, the transformed layout is %r" % (fs, want))
         cx.require(state["metadata"] == "new", "apply succeeded without updating the tree's metadata")
         cx.cover("applied")
     elif inj == "delete" or (inj is None and state["metadata"] == "new"):
-        # the failure happened while discarding replaced content: all renames are done, the files are in the new layout
+        # the failure happened while discarding replaced content: all renames are done, the files are in the new layout.
+        # That much is the recorded behaviour of the known finding and is still required inside its class (a complete
+        # return to the old layout would be fine as well); a tree that is neither is a different violation.
+        tree_now = {k: v for k, v in fs.items() if k.startswith("/t/")}
+        cx.require(tree_now == want or fs == initial,
+                   "a failure while discarding replaced content left the tree torn: %r is neither the new layout %r nor the "
+                   "old one" % (tree_now, want))
         cx.known("C13-failure-while-discarding-content", inj == "delete")
         cx.require(state["metadata"] == "new", "a failure while discarding replaced content left the metadata describing "
                                                "the old layout although the files are in the new layout")
